@@ -49,6 +49,7 @@ type Obligation struct {
 	BackEdge bool // cover of a loop back edge
 	LoopHdr  int  // header block of that loop
 	Canary bool // expected to fail (sat/unknown), never unsat
+	Cross  []SolverResult // thorough tier: answers of the other solver families, each run alone
 }
 
 type ghostInfo struct {
